@@ -267,8 +267,131 @@ pub fn number_to_fixed(
         ));
     }
 
-    let result = format!("{:.prec$}", n, prec = digits as usize);
+    if !n.is_finite() || n.abs() >= 1e21 {
+        return Ok(Guarded::unguarded(JsValue::String(JsString::from(
+            format_number_js(n),
+        ))));
+    }
+
+    // Exact decimal expansion of |n| rounded half up at `digits` fraction digits.
+    let (exact, point) = exact_decimal(n.abs());
+    let (rounded, point) = round_half_up(exact, point, point + digits);
+    let mut result = String::new();
+    if n < 0.0 {
+        result.push('-');
+    }
+    push_fixed(&mut result, &rounded, point, digits);
     Ok(Guarded::unguarded(JsValue::String(JsString::from(result))))
+}
+
+/// Exact decimal expansion of a finite, non-negative double: the significant
+/// digits (no leading zero; empty for 0) and `point` with
+/// value = 0.d1d2...dk x 10^point.  A double with exponent field `e` has at most
+/// `1075 - e` fractional binary digits, hence as many fractional decimal digits,
+/// so formatting with that precision is exact.
+fn exact_decimal(abs: f64) -> (Vec<u8>, i32) {
+    let exp_field = ((abs.to_bits() >> 52) & 0x7ff) as i32;
+    let frac_digits = (1075 - exp_field.max(1)).clamp(0, 1074) as usize;
+    let text = format!("{:.prec$}", abs, prec = frac_digits);
+    let (int_part, frac_part) = text.split_once('.').unwrap_or((text.as_str(), ""));
+    let int_part = int_part.trim_start_matches('0');
+    let mut digits: Vec<u8> = Vec::new();
+    let mut point = int_part.len() as i32;
+    digits.extend(int_part.bytes().map(|b| b - b'0'));
+    if digits.is_empty() {
+        let stripped = frac_part.trim_start_matches('0');
+        point = -((frac_part.len() - stripped.len()) as i32);
+        digits.extend(stripped.bytes().map(|b| b - b'0'));
+    } else {
+        digits.extend(frac_part.bytes().map(|b| b - b'0'));
+    }
+    while digits.last() == Some(&0) {
+        digits.pop();
+    }
+    if digits.is_empty() {
+        point = 0;
+    }
+    (digits, point)
+}
+
+/// Keep the first `keep` digits of `0.digits x 10^point`, rounding half up
+/// (ties away from zero on the magnitude, as toFixed/toPrecision/toExponential
+/// prescribe: "if there are two such n, pick the larger n").
+fn round_half_up(mut digits: Vec<u8>, mut point: i32, keep: i32) -> (Vec<u8>, i32) {
+    if keep < 0 {
+        return (Vec::new(), 0);
+    }
+    let keep = keep as usize;
+    if keep >= digits.len() {
+        return (digits, point);
+    }
+    let round_up = digits.get(keep).is_some_and(|d| *d >= 5);
+    digits.truncate(keep);
+    if round_up {
+        let mut i = keep;
+        loop {
+            if i == 0 {
+                digits.insert(0, 1);
+                point += 1;
+                break;
+            }
+            i -= 1;
+            if let Some(d) = digits.get_mut(i) {
+                if *d == 9 {
+                    *d = 0;
+                } else {
+                    *d += 1;
+                    break;
+                }
+            }
+        }
+    }
+    while digits.last() == Some(&0) {
+        digits.pop();
+    }
+    if digits.is_empty() {
+        point = 0;
+    }
+    (digits, point)
+}
+
+fn digit_at(digits: &[u8], i: i32) -> char {
+    if i < 0 {
+        return '0';
+    }
+    (b'0' + digits.get(i as usize).copied().unwrap_or(0)) as char
+}
+
+/// Append `0.digits x 10^point` in fixed notation with `frac` fraction digits.
+fn push_fixed(out: &mut String, digits: &[u8], point: i32, frac: i32) {
+    if point <= 0 {
+        out.push('0');
+    } else {
+        for i in 0..point {
+            out.push(digit_at(digits, i));
+        }
+    }
+    if frac > 0 {
+        out.push('.');
+        for i in 0..frac {
+            out.push(digit_at(digits, point + i));
+        }
+    }
+}
+
+/// Append `d.ddd e±x` with `sig` significant digits for `0.digits x 10^point`.
+fn push_exponential(out: &mut String, digits: &[u8], point: i32, sig: i32) {
+    out.push(digit_at(digits, 0));
+    if sig > 1 {
+        out.push('.');
+        for i in 1..sig {
+            out.push(digit_at(digits, i));
+        }
+    }
+    let e = if digits.is_empty() { 0 } else { point - 1 };
+    out.push('e');
+    out.push(if e < 0 { '-' } else { '+' });
+    out.push_str(&e.abs().to_string());
 }
 
 /// Format a number as a string in JavaScript format
@@ -283,7 +406,7 @@ fn format_number_js(n: f64) -> String {
             "-Infinity".to_string()
         }
     } else {
-        format!("{}", n)
+        crate::value::number_to_string(n)
     }
 }
 
@@ -377,41 +500,20 @@ pub fn number_to_precision(
         ))));
     }
 
-    let result = format!("{:.prec$e}", n, prec = (precision - 1) as usize);
-    // Parse and reformat to match JS behavior
-    let parts: Vec<&str> = result.split('e').collect();
-    if let [mantissa_str, exp_str] = parts.as_slice() {
-        let mantissa = mantissa_str.parse::<f64>().unwrap_or(0.0);
-        let exp: i32 = exp_str.parse().unwrap_or(0);
-
-        // If exponent is small enough, use fixed notation
-        if exp >= 0 && exp < precision {
-            let decimals = precision - 1 - exp;
-            if decimals >= 0 {
-                return Ok(Guarded::unguarded(JsValue::String(JsString::from(
-                    format!("{:.prec$}", n, prec = decimals as usize),
-                ))));
-            }
-        } else if (-4..0).contains(&exp) {
-            // For small numbers, use fixed notation
-            let decimals = precision - 1 - exp;
-            if (0..=100).contains(&decimals) {
-                return Ok(Guarded::unguarded(JsValue::String(JsString::from(
-                    format!("{:.prec$}", n, prec = decimals as usize),
-                ))));
-            }
-        }
-
-        // Use exponential notation
-        let exp_sign = if exp >= 0 { "+" } else { "" };
-        return Ok(Guarded::unguarded(JsValue::String(JsString::from(
-            format!("{}e{}{}", mantissa, exp_sign, exp),
-        ))));
+    // Exact decimal expansion of |n| rounded half up to `precision` significant digits.
+    let (exact, point) = exact_decimal(n.abs());
+    let (rounded, point) = round_half_up(exact, point, precision);
+    let mut result = String::new();
+    if n < 0.0 {
+        result.push('-');
     }
-
-    Ok(Guarded::unguarded(JsValue::String(JsString::from(
-        format!("{}", n),
-    ))))
+    let e = if rounded.is_empty() { 0 } else { point - 1 };
+    if e < -6 || e >= precision {
+        push_exponential(&mut result, &rounded, point, precision);
+    } else {
+        push_fixed(&mut result, &rounded, point, precision - 1 - e);
+    }
+    Ok(Guarded::unguarded(JsValue::String(JsString::from(result))))
 }
 
 // Number.prototype.toExponential
@@ -428,16 +530,38 @@ pub fn number_to_exponential(
         ))));
     }
 
-    let digits = args.first().map(|v| v.to_number() as i32).unwrap_or(6);
+    let requested = match args.first() {
+        None | Some(JsValue::Undefined) => None,
+        Some(v) => Some(v.to_number() as i32),
+    };
 
-    if !(0..=100).contains(&digits) {
+    if requested.is_some_and(|d| !(0..=100).contains(&d)) {
         return Err(JsError::range_error(
             "toExponential() argument must be between 0 and 100",
         ));
     }
 
-    let result = format!("{:.prec$e}", n, prec = digits as usize);
-    // Convert Rust's "e" notation to JS format (e.g., "1.23e2" -> "1.23e+2")
-    let result = result.replace("e", "e+").replace("e+-", "e-");
+    let mut result = String::new();
+    if n < 0.0 {
+        result.push('-');
+    }
+    match requested {
+        Some(digits) => {
+            // Exact decimal expansion rounded half up to digits+1 significant digits.
+            let (exact, point) = exact_decimal(n.abs());
+            let (rounded, point) = round_half_up(exact, point, digits + 1);
+            push_exponential(&mut result, &rounded, point, digits + 1);
+        }
+        None => {
+            // As many digits as necessary to identify the number uniquely.
+            if n == 0.0 {
+                push_exponential(&mut result, &[], 0, 1);
+            } else {
+                let (shortest, point) = crate::value::shortest_digits(n.abs());
+                let ds: Vec<u8> = shortest.bytes().map(|b| b - b'0').collect();
+                push_exponential(&mut result, &ds, point, ds.len() as i32);
+            }
+        }
+    }
     Ok(Guarded::unguarded(JsValue::String(JsString::from(result))))
 }
